@@ -97,6 +97,7 @@ func cmdRun(args []string) int {
 	tier := fs.String("tier", "quick", "quick | thorough")
 	maxPaths := fs.Int("maxpaths", 200000, "max paths per entry")
 	samples := fs.Int("samples", 3, "witness samples of completed paths per entry")
+	maxTime := fs.Int("maxtime", 900, "max seconds per entry")
 	verbose := fs.Bool("v", false, "verbose")
 	fs.Parse(args)
 
@@ -129,7 +130,7 @@ func cmdRun(args []string) int {
 	pool := newPool(*workers, *solver, *timeout)
 	defer pool.close()
 	for _, e := range entries {
-		r := runEntry(prog, e, pool, *maxPaths, *samples, *out, *verbose)
+		r := runEntry(prog, e, pool, *maxPaths, *samples, *out, *verbose, time.Duration(*maxTime)*time.Second)
 		results = append(results, r)
 		if *verbose {
 			fmt.Fprintf(os.Stderr, "%s: paths=%d ok=%d viol=%d inconcl=%d queries=%d wall=%.1fs\n", r.Name, r.Paths, r.PathsOK, len(r.Violations), len(r.Inconcl), r.Sat+r.Unsat+r.Unknown, r.WallS)
@@ -325,6 +326,8 @@ func findEntries(l *loaded, re string, tier string) ([]*EntrySpec, error) {
 					e.Cfg.AllocB, _ = strconv.ParseInt(fields[1], 10, 64)
 				case "atomic-invisible":
 					e.Cfg.AtomicInvisible = true
+				case "noifconv":
+					e.Cfg.NoIfConv = true
 				case "nopor":
 					e.Cfg.NoPOR = true
 				case "noleakcheck":
@@ -335,6 +338,7 @@ func findEntries(l *loaded, re string, tier string) ([]*EntrySpec, error) {
 					return nil, fmt.Errorf("%s: unknown directive %q", e.Name, dv[0])
 				}
 			}
+			e.Cfg.Thorough = tier == "thorough"
 			if e.Tier == "thorough" && tier != "thorough" {
 				continue
 			}
@@ -374,7 +378,7 @@ func (p *pool) close() {
 	}
 }
 
-func runEntry(l *loaded, e *EntrySpec, pl *pool, maxPaths, nsamples int, outDir string, verbose bool) *EntryResult {
+func runEntry(l *loaded, e *EntrySpec, pl *pool, maxPaths, nsamples int, outDir string, verbose bool, maxTime time.Duration) *EntryResult {
 	t0 := time.Now()
 	P := &Program{prog: l.prog, pkgs: l.pkgs, funcs: l.funcs, mainPkg: l.mainPkg, redirects: map[string]string{}, constOv: e.ConstOv}
 	// default redirects provided by the prelude
@@ -468,6 +472,10 @@ func runEntry(l *loaded, e *EntrySpec, pl *pool, maxPaths, nsamples int, outDir 
 					}
 				}
 				stack = append(stack, pr.NewItems...)
+				if time.Since(t0) > maxTime && !stopped {
+					stopped = true
+					res.Inconcl[fmt.Sprintf("BOUND-EXCEEDED: entry exceeded %v (paths so far %d, queue %d)", maxTime, res.Paths, len(stack))]++
+				}
 				if res.Paths >= maxPaths {
 					stopped = true
 					res.Inconcl[fmt.Sprintf("BOUND-EXCEEDED: more than %d paths", maxPaths)]++
